@@ -606,7 +606,22 @@ class Gen:
             return                      # functions live in the module's HUGR; stand-alone builders cannot call them
         f = self.rng.choice(self.funcs)
         node, ins, outs, poly = f
-        if poly:
+        if poly == "row":
+            # row-polymorphic callee forall R:[Type]. R -> R, instantiated at a row of length 0, 2 or 3 (never the body's arity 1)
+            row = self.rng.choice([[], ["B", "Q"], ["B", "B"], ["I", "B", "Q"]])
+            args = []
+            for t in row:
+                w = self.produce(sc, t)
+                if t in LIN and w in args:
+                    return
+                args.append(w)
+            T = self.T
+            n = sc.b.call(node, *[a.port for a in args], instantiation=self.tys.FunctionType.endo([T[t] for t in row]),
+                          type_args=[self.tys.SequenceArg([T[t].type_arg() for t in row])])
+            self._ledger_args(n, args)
+            outs = list(row)
+            self.features.add("row-poly-call")
+        elif poly:
             t = self.rng.choice(["B", "Q", "I"])
             arg = self.produce(sc, t)
             T = self.T
@@ -645,6 +660,12 @@ class Gen:
             d = m.declare_function("poly_id", sig)
             self._note("declare_function")
             self.funcs.append((d, ["?"], ["?"], True))
+        if self.rng.random() < 0.6:
+            rv = self.tys.RowVariable(0, self.tys.TypeBound.Any)
+            d = m.declare_function("poly_row", self.tys.PolyFuncType([self.tys.ListParam(self.tys.TypeTypeParam(self.tys.TypeBound.Any))],
+                                                                     self.tys.FunctionType.endo([rv])))
+            self._note("declare_function")
+            self.funcs.append((d, ["?"], ["?"], "row"))
         nf = self.rng.randint(1, 3)
         for k in range(nf):
             ins = [self.rng.choice(["B", "Q", "I", "B"]) for _ in range(self.rng.randint(0, 2))]
